@@ -10,7 +10,7 @@
    is searched (rule 4, FIFO, has the recorded finding). *)
 From Coq Require Import List ZArith QArith Bool Arith.
 From PV Require Import Model.Types Model.Sim Model.LogEdit Model.Example Proofs.Base Proofs.RunLemmas Proofs.C01Proof
-  Proofs.C02Proof Proofs.LogsProof Proofs.C0708Proof Proofs.C10Proof Proofs.C13Proof Proofs.C12Proof Proofs.C03Res Proofs.KeyCong Proofs.C10Del Proofs.C10Final.
+  Proofs.C02Proof Proofs.LogsProof Proofs.C0708Proof Proofs.C10Proof Proofs.C13Proof Proofs.C12Proof Proofs.C03Res Proofs.KeyCong Proofs.PertEst Proofs.C10Del Proofs.C10Final.
 Import ListNotations.
 Open Scope nat_scope.
 
@@ -90,8 +90,12 @@ Print Assumptions C10_refresh_sets_absence.
      the project has no automatic task (configuration well formed);
    - the priority rule orders the candidates the same way in both runs: it
      does not read PERT values (SPT, LPT, LRPT, SRPT, LWRPL, SWRPL), or it is
-     TSLACK / EST on a finish-to-start DAG with non-negative work amounts
-     (all critical-path values then shift by the number of absence steps);
+     EST on ANY network -- cyclic or not, all four dependency kinds, tasks kept
+     WORKING below zero remaining work by an FF / SF link included -- whose
+     links stay inside the task list (every earliest start time shifts by the
+     number of absence steps: `Proofs/PertEst.v`), or it is TSLACK / EST on a
+     finish-to-start DAG with non-negative work amounts (all critical-path
+     values then shift by the number of absence steps);
    - no worker or facility has an absence list of its own, the component trees
      are disjoint, the run starts from initialize(True, True) and ends with
      every task FINISHED.
@@ -103,6 +107,7 @@ Theorem C10_deletion_gives_the_absence_free_run : forall c o,
        /\ (forall w, In w (all_workers c) -> w < nW c) /\ NoDup (all_workers c)
        /\ (forall p f, In f (wp_facs c p) -> f < nF c))) ->
   (pert_free (o_rule o)
+   \/ ((o_rule o = 1)%Z /\ edges_in_range c)
    \/ ((o_rule o = 0 \/ o_rule o = 1)%Z
        /\ (exists rank, fs_dag c rank) /\ 0 < nT c
        /\ (forall t, t < nT c -> (0 <= t_work c t)%Q /\ (0 <= t_progress c t <= 1)%Q))) ->
@@ -155,6 +160,24 @@ Proof.
   - intros v e. destruct v as [|[|[|[|v]]]]; cbn; intuition (subst; cbn; auto with arith).
   - intros u e. destruct u as [|[|[|u]]]; cbn; intuition (subst; cbn; auto with arith).
   - intros v Hv. exact Hv.
+Qed.
+
+(* non-vacuity of the EST case outside finish-to-start DAGs: task 1 (1 unit)
+   is held WORKING by a finish-to-finish link from task 0 (3 units), its
+   remaining work goes below zero; under rule 1 with absence at steps 2 and 1
+   the run ends two steps later than without absence and the deleted logs of
+   both tasks equal the absence-free ones *)
+Definition ex_del_opts1 : opts := mkOpts 1%Z [2; 1] false true true 50 [].
+Example C10_deletion_example_est_ff :
+  edges_in_range ex_ff_cfg
+  /\ (nth 4 (l_rem (tl (fst (simulate ex_ff_cfg ex_del_opts1 (blank ex_ff_cfg))) 1)) 0%Q < 0)%Q
+  /\ status (fst (simulate ex_ff_cfg ex_del_opts1 (blank ex_ff_cfg))) = StSuccess
+  /\ time (fst (simulate ex_ff_cfg ex_del_opts1 (blank ex_ff_cfg))) = 2 + time (fst (simulate ex_ff_cfg (no_abs ex_del_opts1) (blank ex_ff_cfg)))
+  /\ l_st (tl (snd (remove_absence ex_ff_cfg (o_abs ex_del_opts1, fst (simulate ex_ff_cfg ex_del_opts1 (blank ex_ff_cfg))))) 1)
+     = l_st (tl (fst (simulate ex_ff_cfg (no_abs ex_del_opts1) (blank ex_ff_cfg))) 1).
+Proof.
+  split; [|vm_compute; repeat split].
+  intros u e. destruct u as [|[|u]]; cbn; intuition (subst; cbn; auto with arith).
 Qed.
 
 (* (e) at run level: in every allocated / performed / recorded snapshot of
